@@ -292,6 +292,186 @@ def run_replay(name, mode, preds, n_values, seed, max_draws=None):
     return desc, mism
 
 
+# ---------------------------------------------------------------- is_tuple_of_p (its own program: Lemmas/GenTupleOf.v)
+def tuple_grid():
+    from predicate.standard_predicates import is_tuple_of_p
+    d0 = dtmod.datetime(2024, 2, 28, 12, 30)
+    comps = [(ge_p(3), le_p(-3)), (le_p(-3), ge_p(3)), (eq_p(4), is_int_p, in_p(1, 2)), (ge_p(3) | le_p(-3), is_none_p), (all_p(ge_p(1)), is_bool_p),
+             (ge_p(BIG + 1),), (), (PP.always_false_p, ge_p(1)), (ge_p(1), PP.always_false_p), (in_p(1, 2, 3), ge_p(0)), (ge_p(0), in_p(1, 2, 3), lt_p(0)),
+             (is_int_p, is_str_p, is_float_p, is_none_p), (ne_p(0), not_in_p(1, 2)), (ge_p(3) & le_p(10), gt_p(-10**30)), (is_set_of_p(eq_p(4)), any_p(ge_p(3))),
+             (ge_p(2.5), lt_p(2.5)), (lt_p(1e300), ge_p(-1.0), eq_p(2.0)), (ge_p("m"), eq_p("foo"), is_str_p), (lt_p("m"), in_p("a", "b")),
+             (ge_p(d0), lt_p(d0)), (is_truthy_p, is_falsy_p, is_not_none_p), (has_key_p(3), is_dict_p), (eq_p(1), eq_p(2), eq_p(3), eq_p(4), eq_p(5), eq_p(6))]
+    return [is_tuple_of_p(*c) for c in comps]
+
+
+def run_replay_tuple(name, tuples, n_values, seed):
+    """generate_true(is_tuple_of_p(p1..pn)): recorded draws replayed on gen_tuple_of; tuples compared component by component, IN ORDER"""
+    items, desc = [], []
+    for t in tuples:
+        comps = list(t.predicates)
+        kinds = {sort_of(c) for c in comps}
+        named = {k for c in comps for k in [sort_of(c)] if consts_of_all(c)}
+        if None in kinds or len(named) > 1:
+            continue
+        ck = named.pop() if named else "KInt"
+        random.seed(seed * 1000003 + len(items))
+        with Recorder() as rec:
+            try:
+                vals, err = take(GT.generate_true(t), n_values)
+            except ValueError:
+                continue
+        if err is not None and err != "timeout":
+            continue
+        allc = [c for comp in comps for c in consts_of_all(comp)]
+        drawn = [v for k, v in rec.draws if k == "V"]
+        cx = GCtx(ck, allc + [v for v in drawn if isinstance(v, (str, uuid.UUID))])
+        try:
+            ds = "[" + "; ".join((f"DZ ({v})%Z" if k == "Z" else (f"DQ {cx.q(float(v))}" if k == "Q" else f"DV {cx.val(v)}")) for k, v in rec.draws) + "]"
+            exp = "[" + "; ".join(cx.val(v) for v in vals) + "]"
+            ptxt = "[" + "; ".join(cx.pred(c) for c in comps) + "]"
+        except (enc.Unencodable, KeyError, TypeError):
+            continue
+        if len(rec.draws) > 4000:
+            continue
+        items.append(f"(({fenv_text(cx, allc)}), {ck}, {ptxt}, {ds}, {exp}, {len(vals)}%nat)")
+        desc.append({"p": "is_tuple_of_p(" + ", ".join(repr(c) for c in comps) + ")", "mode": "true", "values": len(vals), "draws": len(rec.draws),
+                     "ended": err is None and len(vals) < n_values})
+    run_def = ("From PP Require Import Lemmas.GenTupleOf.\nOpen Scope Q_scope.\n"
+               "Definition sim_t (a b : val) : bool := match a, b with\n"
+               "  | VColl KTuple l, VColl KTuple l' => (fix go (l l' : list val) {struct l} : bool :=\n"
+               "       match l, l' with [], [] => true | x :: r, y :: r' => sim x y && go r r' | _, _ => false end) l l'\n"
+               "  | _, _ => false end.\n"
+               "Fixpoint same_t (a b : list val) : bool := match a, b with [], [] => true | x :: r, y :: r' => sim_t x y && same_t r r' | _, _ => false end.\n"
+               "Definition run (c : fenv * kind * list pred * list draw * list val * nat) : nat :=\n"
+               "  let '(fe, ck, ps, ds, expected, n) := c in\n"
+               "  let got := first_n (300 * 1000)%nat n (gen_tuple_of fe W0 ck ps) (mk_oracle ds) 0 in\n"
+               "  if same_t got expected then 0%nat else if Nat.eqb (List.length got) (List.length expected) then 1%nat else 2%nat.")
+    codes = []
+    for i, part in enumerate(chunks(items, 12)):
+        text = (enc.CASE_HEADER + enc.world_text() + COMMON_DEFS + run_def
+                + "\nDefinition cases : list (fenv * kind * list pred * list draw * list val * nat) := [\n" + ";\n".join(part)
+                + "].\nEval vm_compute in map run cases.\n")
+        codes += vlib.parse_nat_list(vlib.coq_eval(f"{name}_t{i}", text, timeout=900))
+    mism = [{**desc[i], "disagreement": {1: "a tuple differs (components compared in order)", 2: "the model yields a different number of tuples"}[c]}
+            for i, c in enumerate(codes) if c != 0]
+    return desc, mism
+
+
+# ---------------------------------------------------------------- is_dict_of_p (Lemmas/DictOf.v, Lemmas/GenDictOf.v)
+def dict_grid():
+    from predicate.standard_predicates import is_dict_of_p
+    kvs = [((eq_p(1), ge_p(3)), (eq_p(2), is_none_p)), ((eq_p(1), eq_p(5)), (ge_p(0), ge_p(7))), ((ge_p(0), ge_p(7)), (eq_p(1), eq_p(5))),
+           ((is_int_p, is_int_p),), ((eq_p(1), is_bool_p), (eq_p(1), is_none_p)), ((eq_p(1), is_bool_p), (eq_p(1.0), is_none_p), (eq_p(2), eq_p(3))), (),
+           ((in_p(1, 2, 3), ge_p(0)),), ((eq_p(4), PP.always_false_p),), ((PP.always_false_p, eq_p(4)), (eq_p(1), eq_p(1))), ((le_p(-3), all_p(ge_p(1))), (ge_p(3), is_set_of_p(eq_p(4)))),
+           (("a", is_int_p), (is_str_p, is_str_p)), (("a", is_int_p), ("b", is_str_p)), ((ge_p("m"), eq_p("foo")), (lt_p("m"), is_none_p)),
+           ((ge_p(2.5), lt_p(2.5)), (lt_p(2.5), ge_p(2.5))), ((is_none_p, is_none_p), (is_truthy_p, is_falsy_p)), ((eq_p(1), eq_p(1)), (eq_p(2), eq_p(2)), (eq_p(3), eq_p(3)), (eq_p(4), eq_p(4)))]
+    return [is_dict_of_p(*k) for k in kvs]
+
+
+def _dict_sort(d):
+    comps = [c for kv in d.key_value_predicates for c in kv]
+    kinds = {sort_of(c) for c in comps}
+    named = {sort_of(c) for c in comps if consts_of(c)}
+    if None in kinds or len(named) > 1:
+        return None, comps
+    return (named.pop() if named else "KInt"), comps
+
+
+DICT_DEFS = ("From PP Require Import Lemmas.DictOf Lemmas.GenDictOf.\nOpen Scope Q_scope.\n"
+             "(* a number next to constants of another sort is an opaque scalar on the harness side (VOther): same type is all that can be compared *)\n"
+             "Definition simx (a b : val) : bool := sim a b || match a, b with\n"
+             "  | VQ k _ _, VOther k' _ _ | VOther k _ _, VQ k' _ _ => kind_eqb k k' && match k with KBool | KInt | KFloat => true | _ => false end\n"
+             "  | _, _ => false end.\n"
+             "Definition sim_item (a b : val) : bool := match a, b with\n"
+             "  | VColl KTuple [k; v], VColl KTuple [k'; v'] => simx k k' && simx v v' | _, _ => false end.\n"
+             "Definition sim_d (a b : val) : bool := match a, b with\n"
+             "  | VColl KDict l, VColl KDict l' => (fix go (l l' : list val) {struct l} : bool :=\n"
+             "       match l, l' with [], [] => true | x :: r, y :: r' => sim_item x y && go r r' | _, _ => false end) l l'\n"
+             "  | _, _ => false end.\n"
+             "Fixpoint same_d (a b : list val) : bool := match a, b with [], [] => true | x :: r, y :: r' => sim_d x y && same_d r r' | _, _ => false end.\n")
+
+
+def _enc_dict(cx, d):
+    return "(VColl KDict [" + "; ".join(f"VColl KTuple [{cx.val(k)}; {cx.val(v)}]" for k, v in d.items()) + "])"
+
+
+def run_replay_dict(name, dicts, n_values, seed):
+    """generate_true(is_dict_of_p(...)): recorded draws replayed on gen_dict_of; dicts compared item by item, in insertion order.
+    Every value the IMPLEMENTATION yielded is also evaluated by DictOfPredicate.__call__ and by the model's dict_of_items (same answer)."""
+    items, desc, call_items, call_exp, call_desc = [], [], [], [], []
+    for t in dicts:
+        ck, comps = _dict_sort(t)
+        if ck is None:
+            continue
+        random.seed(seed * 1000003 + len(items))
+        with Recorder() as rec:
+            try:
+                vals, err = take(GT.generate_true(t), n_values)
+            except ValueError:
+                continue
+        if err is not None and err != "timeout":
+            continue
+        allc = [c for comp in comps for c in consts_of(comp)]
+        drawn = [v for k, v in rec.draws if k == "V"]
+        cx = GCtx(ck, allc + [v for v in drawn if isinstance(v, (str, uuid.UUID))] + ["a", "b", "x"])
+        try:
+            ds = "[" + "; ".join((f"DZ ({v})%Z" if k == "Z" else (f"DQ {cx.q(float(v))}" if k == "Q" else f"DV {cx.val(v)}")) for k, v in rec.draws) + "]"
+            exp = "[" + "; ".join(_enc_dict(cx, v) for v in vals) + "]"
+            ptxt = "[" + "; ".join(f"({cx.pred(kp_)}, {cx.pred(vp_)})" for kp_, vp_ in t.key_value_predicates) + "]"
+            calls = []
+            for v in vals[:6]:
+                k_, r_ = call(t, v)
+                calls.append((f"(({fenv_text(cx, allc)}), {ck}, {ptxt}, " + "[" + "; ".join(f"({cx.val(a)}, {cx.val(b)})" for a, b in v.items()) + "])",
+                              (1 if r_ else 0) if k_ == "ok" else 2, repr(v)[:200]))
+        except (enc.Unencodable, KeyError, TypeError):
+            continue
+        if len(rec.draws) > 4000:
+            continue
+        items.append(f"(({fenv_text(cx, allc)}), {ck}, {ptxt}, {ds}, {exp}, {len(vals)}%nat)")
+        label = "is_dict_of_p(" + ", ".join(f"({kp_!r}, {vp_!r})" for kp_, vp_ in t.key_value_predicates) + ")"
+        desc.append({"p": label, "mode": "true", "values": len(vals), "draws": len(rec.draws), "ended": err is None and len(vals) < n_values})
+        # hand-written dicts as well (empty, partial, overlapping, wrong-typed keys: the raising branches)
+        for v in ({}, {1: 5}, {1: 5, 0: 7}, {0: 7, 1: 5}, {1: 3, 2: None}, {2: None}, {1: None}, {"a": 1}, {"a": 1, "b": "x"}, {"b": 2}, {None: None}, {1: True, 1.5: 2.5}, {4: 4, 1: 1, 3: 3, 2: 2}):
+            try:
+                k_, r_ = call(t, v)
+                calls.append((f"(({fenv_text(cx, allc)}), {ck}, {ptxt}, " + "[" + "; ".join(f"({cx.val(a)}, {cx.val(b)})" for a, b in v.items()) + "])",
+                              (1 if r_ else 0) if k_ == "ok" else 2, repr(v)[:200]))
+            except (enc.Unencodable, KeyError, TypeError):
+                continue
+        for txt, e_, r_ in calls:
+            call_items.append(txt)
+            call_exp.append(e_)
+            call_desc.append({"p": label, "x": r_})
+    run_def = (DICT_DEFS +
+               "Definition run (c : fenv * kind * list kvpred * list draw * list val * nat) : nat :=\n"
+               "  let '(fe, ck, kvs, ds, expected, n) := c in\n"
+               "  let got := first_n (300 * 1000)%nat n (gen_dict_of fe W0 ck kvs) (mk_oracle ds) 0 in\n"
+               "  if same_d got expected then 0%nat else if Nat.eqb (List.length got) (List.length expected) then 1%nat else 2%nat.")
+    codes = []
+    for i, part in enumerate(chunks(items, 12)):
+        text = (enc.CASE_HEADER + enc.world_text() + COMMON_DEFS + run_def
+                + "\nDefinition cases : list (fenv * kind * list kvpred * list draw * list val * nat) := [\n" + ";\n".join(part)
+                + "].\nEval vm_compute in map run cases.\n")
+        codes += vlib.parse_nat_list(vlib.coq_eval(f"{name}_d{i}", text, timeout=900))
+    mism = [{**desc[i], "disagreement": {1: "a dict differs (items compared in insertion order)", 2: "the model yields a different number of dicts"}[c]}
+            for i, c in enumerate(codes) if c != 0]
+    # DictOfPredicate.__call__ vs dict_of_items on the yielded dicts
+    call_def = (DICT_DEFS + "Definition run (c : fenv * kind * list kvpred * list item) : nat :=\n"
+                "  let '(fe, ck, kvs, its) := c in match dict_of_items W0 kvs its with Some true => 1%nat | Some false => 0%nat | None => 2%nat end.")
+    ccodes = []
+    for i, part in enumerate(chunks(call_items, 40)):
+        text = (enc.CASE_HEADER + enc.world_text() + COMMON_DEFS + call_def
+                + "\nDefinition cases : list (fenv * kind * list kvpred * list item) := [\n" + ";\n".join(part) + "].\nEval vm_compute in map run cases.\n")
+        ccodes += vlib.parse_nat_list(vlib.coq_eval(f"{name}_dc{i}", text, timeout=900))
+    mism += [{**call_desc[i], "disagreement": f"DictOfPredicate.__call__ gives {call_exp[i]} and dict_of_items {c} (0 False, 1 True, 2 raises)"}
+             for i, c in enumerate(ccodes) if c != call_exp[i]]
+    return desc, mism, {"dict_calls_compared": len(ccodes), "dict_calls_false": sum(1 for e in call_exp if e == 0)}
+
+
+def consts_of_all(p):
+    return consts_of(p)
+
+
 # ---------------------------------------------------------------- predicate grids
 BIG = sys.maxsize
 
